@@ -1094,18 +1094,15 @@ impl SparqlDatabase {
                         (object_raw, vec![])
                     };
 
-                    let subject =
-                        this.resolve_query_term(&Self::clean_turtle_term(s_raw), &this.prefixes);
-                    let predicate =
-                        this.resolve_query_term(&Self::clean_turtle_term(p_raw), &this.prefixes);
-                    let object = this
-                        .resolve_query_term(&Self::clean_turtle_term(&object_part), &this.prefixes);
+                    let subject = this.turtle_term_value(s_raw);
+                    let predicate = this.turtle_term_value(p_raw);
+                    let object = this.turtle_term_value(&object_part);
 
                     // Emit the main triple
                     if subject.starts_with("<<") || object.starts_with("<<") {
-                        let s_id = this.encode_term_star(&subject);
-                        let p_id = this.encode_term_star(&predicate);
-                        let o_id = this.encode_term_star(&object);
+                        let s_id = this.encode_cleaned_term(&subject);
+                        let p_id = this.encode_cleaned_term(&predicate);
+                        let o_id = this.encode_cleaned_term(&object);
                         let triple = Triple {
                             subject: s_id,
                             predicate: p_id,
@@ -1298,6 +1295,25 @@ impl SparqlDatabase {
         }
 
         tokens
+    }
+
+    /// Lexical value of one Turtle token. `<iri>` and "literal" tokens are final (escapes
+    /// decoded, nothing expanded); only bare tokens are prefixed names.
+    fn turtle_term_value(&self, raw: &str) -> String {
+        let term = raw.trim();
+        if term.starts_with("<<") {
+            term.to_string()
+        } else if term.len() >= 2 && term.starts_with('<') && term.ends_with('>') {
+            term[1..term.len() - 1].to_string()
+        } else if term.starts_with('"') {
+            match decode_ntriples_literal(term) {
+                Some((value, rest)) if rest.starts_with('@') => format!("{value}{rest}"),
+                Some((value, _)) => value,
+                None => term.trim_matches('"').to_string(),
+            }
+        } else {
+            self.resolve_query_term(term, &self.prefixes)
+        }
     }
 
     fn clean_turtle_term(term: &str) -> String {
